@@ -295,7 +295,8 @@ pub fn c14_judge(s: &Setting, task: &Task, wh: Where, probe: &Value, default: &V
 pub fn c14_settings(th: bool) -> Vec<Setting> {
     let mut v = vec![
         Setting { levels: 1, heights: vec![25], ws: vec![1], fv: None },
-        Setting { levels: 2, heights: vec![5, 5], ws: vec![4, 4], fv: None },
+        // non-uniform: the bottom level allows larger signatures than the top level
+        Setting { levels: 2, heights: vec![5, 5], ws: vec![8, 2], fv: None },
         Setting { levels: 3, heights: vec![10, 5, 5], ws: vec![2, 4, 8], fv: None },
     ];
     if th {
@@ -303,6 +304,8 @@ pub fn c14_settings(th: bool) -> Vec<Setting> {
             v.push(Setting { levels: l, heights: vec![25; l], ws: vec![1; l], fv: None });
         }
         v.push(Setting { levels: 2, heights: vec![5, 10], ws: vec![1, 1], fv: None });
+        v.push(Setting { levels: 2, heights: vec![5, 5], ws: vec![4, 4], fv: None });
+        v.push(Setting { levels: 3, heights: vec![2, 5, 10], ws: vec![8, 4, 1], fv: None });
         v.push(Setting { levels: 2, heights: vec![5, 2], ws: vec![8, 1], fv: None });
         v.push(Setting { levels: 4, heights: vec![5, 5, 5, 5], ws: vec![8, 8, 8, 8], fv: None });
         v.push(Setting { levels: 3, heights: vec![15, 10, 5], ws: vec![1, 2, 4], fv: None });
@@ -615,9 +618,19 @@ pub fn c15_replay(case: &Value) -> Result<Vec<Viol>, String> {
         _ => {
             let s: Setting = serde_json::from_value(case["setting"].clone()).map_err(|e| e.to_string())?;
             let task: Task = serde_json::from_value(case["task"].clone()).map_err(|e| e.to_string())?;
+            // real threads are not under the harness's control: a schedule-dependent failure is
+            // re-tried a few times (the controlled-schedule engine gives the reproducible verdict)
             let bin = build_probe(&s, "fv-replay")?;
-            let (_, res) = run_probe(&bin, &[task.clone()])?;
-            Ok(c15_judge(&s, &task, &res[0]))
+            let mut all = vec![];
+            for _ in 0..12 {
+                let (_, res) = run_probe(&bin, &[task.clone()])?;
+                let v = c15_judge(&s, &task, &res[0]);
+                if !v.is_empty() {
+                    all = v;
+                    break;
+                }
+            }
+            Ok(all)
         }
     }
 }
